@@ -829,6 +829,8 @@ def _parse_topology_keys(mol: dict, lit: LineIterator) -> dict:
     # Load ghost atoms as atoms with zero effective core charge
     if "real" in mol:
         atcorenums[~np.array(mol["real"])] = 0.0
+        # Ghost atoms do not contribute electrons.
+        topology_dict["nelec"] = np.sum(atcorenums) - formal_charge
     # Load atom masses to array, canonical weights assumed if masses not given
     if "masses" in mol and "mass_numbers" in mol:
         warn(
